@@ -54,6 +54,15 @@ var Registry = map[string]func(c *Ctx, arg string) error{
 			RunSyncCrashEnum(c)
 			return nil
 		}
+		if arg == "retrieve" {
+			RunRetrieve(c)
+			return nil
+		}
+		if arg == "adversary" {
+			RunAdversary(c)
+			RunLight(c)
+			return nil
+		}
 		RunSyncStopQueued(c)
 		if c.Thorough() {
 			RunSyncRandom(c, 150)
